@@ -18,6 +18,14 @@ fn verif_dir() -> PathBuf {
     PathBuf::from("/verif")
 }
 
+/// where evidence, replays of failing runs and scratch files go (default: the verification dir)
+fn out_dir() -> PathBuf {
+    if let Ok(d) = std::env::var("VERIF_OUT_DIR") {
+        return PathBuf::from(d);
+    }
+    verif_dir()
+}
+
 fn parse_tier(s: &str) -> Option<Tier> {
     match s {
         "quick" => Some(Tier::Quick),
@@ -281,7 +289,7 @@ fn parent(id: &str, tier: Tier) -> i32 {
         }
     };
     let seed = seed_from_env();
-    let vdir = verif_dir();
+    let vdir = out_dir();
     let work = vdir.join(".work").join(format!("{}-{}", id, std::process::id()));
     let _ = std::fs::remove_dir_all(&work);
     if std::fs::create_dir_all(&work).is_err() {
